@@ -1,5 +1,5 @@
 #!/usr/bin/env python3
-"""tools/crosscheck.py <ID>-<k> [...]
+"""tools/crosscheck.py [--own] <ID>-<k> [...]
 
 For kept seeded changes that the check of their own property does not report: run the quick
 checks of the OTHER properties whose anchored files the patch touches (properties.jsonl,
@@ -34,13 +34,16 @@ def candidates(files, own):
 
 
 def main():
-    for name in sys.argv[1:]:
+    own_mode = "--own" in sys.argv      # re-run the check of the change's own property (after strengthening it)
+    for name in [a for a in sys.argv[1:] if not a.startswith("--")]:
         d = os.path.join(VERIF, "seeded", name)
         meta = json.load(open(os.path.join(d, "meta.json")))
         own = name.split("-")[0]
         patch = open(os.path.join(d, "patch.diff")).read()
         files = sorted(set(re.findall(r"^\+\+\+ b/(\S+)", patch, re.M)))
         cands = [c for c in candidates(files, own) if c not in meta.get("our_checks", {})][:4]
+        if own_mode:
+            cands = [own]
         print("=== %s touches %s -> %s" % (name, files, cands), flush=True)
         if not cands:
             continue
